@@ -82,6 +82,12 @@ def make_reps(gspec):
         gi = hcipy.CartesianGrid(hcipy.RegularCoords(np.array([dz, dz], float), np.array([n, n], int), np.array([dz, dz], float)))
         sx, sy = [np.array(c, float) for c in gi.separated_coords]
         sep = (sx, sy)
+    elif kind == 'pts':
+        # an explicit unstructured point set (no separated form)
+        a, b = np.array(gspec[1], float), np.array(gspec[2], float)
+        reps['unstructured'] = hcipy.CartesianGrid(hcipy.UnstructuredCoords((a.copy(), b.copy())))
+        reps['polar'] = reps['unstructured'].as_('polar')
+        return reps, a.copy(), b.copy(), None
     elif kind == 'polarsep':
         rs, ths = np.array(gspec[1], float), np.array(gspec[2], float)
         pg = hcipy.PolarGrid(hcipy.SeparatedCoords([rs, ths]))
@@ -203,6 +209,8 @@ def grid_features(gspec, sep):
         return 'mixed'
     if gspec[0] == 'alias-pts':
         return ['alias-pts:diagonal']
+    if gspec[0] == 'pts':
+        return ['pts:explicit']
     if gspec[0] == 'polarsep':
         return ['polar:r0=0' if gspec[1][0] == 0 else 'polar:r0>0', 'polar:theta-' + direction(np.array(gspec[2]))]
     kind = gspec[0] + ('(' + gspec[4] + ')' if len(gspec) > 4 else '')
@@ -882,8 +890,10 @@ def run_generic(ctx, gspec, sspec, over=None, want_model=True, corner=None, hist
                     if near[i]:
                         ctx.boundary_skipped += 1
                         ctx.count('model-boundary-skipped')
+                        ctx.count('skipped-by-maker:' + label)
                         continue
                     ctx.count('points-compared')
+                    ctx.count('compared-by-maker:' + label)
                     if abs(mv[i] - rv[i]) > 1e-9:
                         ctx.disagree('C12 ' + mode, {'case': case, 'rep': name, 'index': i, 'point': [float(xs[i]), float(ys[i])],
                                                      'model': mv[i], 'impl': float(rv[i])}, key='%s:model:%s' % (label, name))
@@ -1778,7 +1788,25 @@ def run_hexpupil(ctx, name, kw, gseed, fam, feat=None):
     trs_tok = rat_list(trs) if trs is not None else 's:1'
     D = cfg['D']
     feats = hexpupil_features(cfg, kept)
-    if feat is not None:
+    crossing = None
+    if feat is not None and feat[0] == 'spider-crossings':
+        # directed: EVERY spider is crossed twice by a row of 5 points (offsets -3, -1/2, 0, 1/2, 3 half widths) at random
+        # distances from its start point; an explicit unstructured point set
+        if not cfg['spiders']:
+            return [], (lambda out: None)
+        px, py, crossing = [], [], []
+        for sp_p, deg in cfg['spiders']:
+            a = np.radians(deg)
+            for _ in range(2):
+                t = float(rng.uniform(0.15, 0.42)) * D
+                cx, cy = -sp_p[0] + t * np.cos(a), -sp_p[1] + t * np.sin(a)
+                crossing.append((cx, cy))
+                for o in (-3.0, -0.5, 0.0, 0.5, 3.0):
+                    px.append(float(cx - o * cfg['hw'] * np.sin(a)))
+                    py.append(float(cy + o * cfg['hw'] * np.cos(a)))
+        ctx.count('hexpupil-grid:feature:spider-crossings')
+        c, half = [0.0, 0.0], D / 2
+    elif feat is not None:
         # directed: [label, k, fine] = the k-th feature with that label; a small grid around it, pixels of the order of the feature
         sel = [f for f in feats if f[2] == feat[0]]
         if not sel:
@@ -1795,7 +1823,10 @@ def run_hexpupil(ctx, name, kw, gseed, fam, feat=None):
         half = 0.55 * D * float(rng.uniform(0.3, 1.1))
         ctx.count('hexpupil-grid:whole')
     heavy = name in HEAVY
-    gspec = gen_grid_family(rng, fam, nmax=(5 if feat is not None else 6) if heavy else 7, half=half, centre=(c[0], c[1]), exact=False)
+    if crossing is not None:
+        gspec = ['pts', px, py]
+    else:
+        gspec = gen_grid_family(rng, fam, nmax=(5 if feat is not None else 6) if heavy else 7, half=half, centre=(c[0], c[1]), exact=False)
     case['grid'] = gspec
     reps, xs, ys, sep = make_reps(gspec)
     scale = scale_of(xs, ys, D)
@@ -1805,6 +1836,10 @@ def run_hexpupil(ctx, name, kw, gseed, fam, feat=None):
     pick = []
     if kept is not None and len(kept):
         pick = sorted({int(np.argmin(np.hypot(kept[:, 0] - np.mean(xs), kept[:, 1] - np.mean(ys)))), int(rng.integers(0, len(kept)))})
+        if crossing is not None:
+            # the segments the spiders cut: nearest to two of the crossing points
+            pick = sorted({int(np.argmin(np.hypot(kept[:, 0] - crossing[j][0], kept[:, 1] - crossing[j][1])))
+                           for j in rng.choice(len(crossing), 2, replace=False)})
     case['segments'] = pick
     rest = hexpupil_tokens(cfg, trs_tok)
     op = 'hicat' if cfg.get('hicat') else 'hexpupil'
@@ -1824,7 +1859,7 @@ def run_hexpupil(ctx, name, kw, gseed, fam, feat=None):
             lines.append((segtok, 'sep', 'C12 %s sep %s %s %s %s %s' % (op, tol, rat_list(sep[0]), rat_list(sep[1]), segtok, rest)))
         lines.append((segtok, 'pts', 'C12 %s pts %s %s %s %s %s' % (op, tol, rat_list(xs), rat_list(ys), segtok, rest)))
         # the polar code path of the model: on polar families, and for the (cheap) segments always
-        if reps.get('polar') is not None and (fam.startswith('polar') or segtok != '-'):
+        if reps.get('polar') is not None and (fam.startswith('polar') or segtok != '-' or crossing is not None):
             lines.append((segtok, 'polar', polar_request(op, tol, reps['polar'], segtok + ' ' + rest)))
     # pupil = union of the returned segments (unit transmissions: non-zero exactly where some segment is non-zero), on the real code,
     # using the segments evaluated above plus, on small pupils, all of them
@@ -1907,11 +1942,11 @@ def run_hexpupil(ctx, name, kw, gseed, fam, feat=None):
 
 
 HEXMODEL_FEATURES = {
-    'make_luvoir_a_aperture': ('dropped-site', 'kept-extreme', 'gap', 'spider'),
+    'make_luvoir_a_aperture': ('dropped-site', 'kept-extreme', 'gap', 'spider', 'spider-crossings'),
     'make_luvoir_b_aperture': ('dropped-site', 'kept-extreme', 'gap'),
-    'make_elt_aperture': ('dropped-site', 'kept-extreme', 'gap', 'spider'),
-    'make_tmt_aperture': ('dropped-site', 'kept-extreme', 'gap', 'spider', 'obscuration-rim'),
-    'make_hicat_aperture': ('kept-extreme', 'gap', 'spider', 'central-segment', 'central-segment-edge', 'contour'),
+    'make_elt_aperture': ('dropped-site', 'kept-extreme', 'gap', 'spider', 'spider-crossings'),
+    'make_tmt_aperture': ('dropped-site', 'kept-extreme', 'gap', 'spider', 'spider-crossings', 'obscuration-rim'),
+    'make_hicat_aperture': ('kept-extreme', 'gap', 'spider', 'spider-crossings', 'central-segment', 'central-segment-edge', 'contour'),
 }
 
 HEXMODEL_CONFIGS = {
@@ -1923,6 +1958,88 @@ HEXMODEL_CONFIGS = {
     'make_hicat_aperture': [{}, {'normalized': True}, {'with_spiders': False}, {'with_segment_gaps': False},
                             {'normalized': True, 'with_spiders': False, 'with_segment_gaps': False}],
 }
+
+
+# ---------------------------------------------------------------------------------------------
+# round 5: comparisons ON the decision boundary, where the decision is exactly representable (dyadic sizes/centres, axis-aligned:
+# every float operation of the maker is exact).  The model is asked with tolerance 0 (nothing is skipped); which side the model
+# (spiders only along +x: angle 0 has cos = 1, sin = 0 exactly; angle pi has sin = 1.2e-16.)  Which side the model
+# takes is proved: rect_boundary_closed, circle_boundary_closed, spider_boundary_blocked, spider_infinite_boundary_blocked.
+
+EXACT_BOUNDARY_SHAPES = [
+    ['rect', [1.5, 1.0], [0.25, -0.5]], ['rect', 1.25, None], ['rect', [0.0, 1.0], [0.5, 0.0]],
+    ['circle', 1.25, None], ['circle', 1.25, [0.5, 0.25]], ['circle', 0.0, [0.25, 0.25]],
+    ['spider', [-1.0, 0.25], [1.0, 0.25], 0.5], ['spider', [-0.5, -0.5], [1.0, -0.5], 0.25],
+    ['spiderinf', [0.25, -0.5], 0.0, 0.5], ['spiderinf', [0.0, 0.0], 0.0, 0.25],
+    ['shifted', ['rect', [1.5, 1.0], None], [0.5, -0.25]], ['obstruction', ['rect', [1.0, 0.75], [0.125, 0.125]]],
+    ['obstruction', ['circle', 1.25, [0.5, 0.25]]], ['shifted', ['circle', 1.25, None], [-0.375, 0.5]],
+    ['segmented', ['rect', [0.5, 0.25], None], [[-0.5, 0.0], [0.0, 0.0], [0.5, 0.25]], [0.5, 1.0, 0.25]],
+    ['segmented', ['circle', 0.625, None], [[-0.625, 0.0], [0.0, 0.0]], 1.0],
+]
+EXACT_BOUNDARY_GRIDS = [['regular', [25, 25], [0.125, 0.125], [-1.5, -1.5]],
+                        ['regular', [13, 9], [-0.25, 0.125], [1.5, -0.5]],
+                        ['sep', [0.625, -0.5, 1.0, 0.0, -0.25, 0.375, 0.875, -1.0], [0.5, 0.0, -1.0, 0.25, 0.75, -0.25, 0.625]]]
+
+
+def run_exact_boundary(ctx):
+    lines, meta = [], []
+    tiny = rat(2.0 ** -30)
+    for sspec in EXACT_BOUNDARY_SHAPES:
+        gen, toks, size, binary = build(sspec)
+        label = top_kind(sspec)
+        for gspec in EXACT_BOUNDARY_GRIDS:
+            reps, xs, ys, sep = make_reps(gspec)
+            case = {'grid': gspec, 'shape': sspec}
+            res = {}
+            for nm in ('regular', 'separated', 'unstructured'):
+                if reps.get(nm) is None:
+                    continue
+                vals, err, attached = evaluate(gen, reps[nm])
+                if err is not None:
+                    ctx.violation('%s:raises:%s:%s' % (label, rep_class(nm), err), '%s raises %s on a %s grid' % (label, err, nm), case)
+                    continue
+                res[nm] = vals
+            # the property ON the boundary: every operation is exact here, so no point is forgiven
+            names = list(res)
+            for nm in names[1:]:
+                d = np.flatnonzero(res[nm] != res[names[0]])
+                if len(d):
+                    i = int(d[0])
+                    ctx.violation('%s:differs-on-boundary:%s' % (label, rep_class(nm)),
+                                  '%s: at the point (%r, %r) (exactly representable decision) the value is %r on the %s grid but %r on the %s grid' % (
+                                      label, float(xs[i]), float(ys[i]), float(res[names[0]][i]), names[0], float(res[nm][i]), nm), case)
+            ctx.count('exact-boundary-cases')
+            for mode in ('sep', 'pts'):
+                a, b = (sep[0], sep[1]) if mode == 'sep' else (xs, ys)
+                for tol in ('0', tiny):
+                    lines.append('C12 eval %s %s %s %s %s' % (mode, tol, rat_list(a), rat_list(b), ' '.join(toks)))
+                meta.append((mode, label, case, res, xs, ys))
+    out = ctx.model(lines)
+    for k, (mode, label, case, res, xs, ys) in enumerate(meta):
+        p0, p1 = out[2 * k].split(' '), out[2 * k + 1].split(' ')
+        if p0[0] != 'ok' or p1[0] != 'ok':
+            ctx.disagree('C12 exact-boundary ' + mode, {'case': case, 'model': out[2 * k][:80]})
+            continue
+        mv, skipped, onb = _rats(p0[1]), _bits(p0[2]), _bits(p1[2])
+        if any(skipped):
+            ctx.disagree('C12 exact-boundary ' + mode, {'case': case, 'detail': 'tolerance 0 still flags a point'})
+        for nm in (('regular', 'separated') if mode == 'sep' else ('unstructured',)):
+            rv = res.get(nm)
+            if rv is None:
+                continue
+            ctx.traces_validated += 1
+            for i in range(len(rv)):
+                ctx.count('points-compared')
+                if onb[i]:
+                    ctx.count('points-compared-on-boundary')
+                    ctx.count('on-boundary-by-maker:' + label)
+                if i >= len(mv) or abs(mv[i] - rv[i]) > 0:
+                    ctx.disagree('C12 exact-boundary ' + mode, {'case': case, 'rep': nm, 'index': i, 'point': [float(xs[i]), float(ys[i])],
+                                                                  'on-boundary': bool(onb[i]), 'model': mv[i] if i < len(mv) else None, 'impl': float(rv[i])},
+                                 key='%s:on-boundary:model:%s' % (label, nm))
+                    break
+    if not ctx.dist.get('points-compared-on-boundary'):
+        raise MachineryError('the exact-boundary corpus has no point on a boundary')
 
 
 # ---------------------------------------------------------------------------------------------
@@ -2399,12 +2516,16 @@ def run(ctx):
     for name in HEXMODEL_PUPILS:
         cfgs5 = HEXMODEL_CONFIGS[name]
         for li, flabel in enumerate(HEXMODEL_FEATURES[name]):
+            if flabel == 'spider' and ctx.quick():
+                continue            # quick tier: 'spider-crossings' visits every spider in one case
             for k in ([int(ctx.rng.integers(0, 5))] if ctx.quick() else range(5)):
                 for fine in ([bool(ctx.rng.integers(0, 2))] if ctx.quick() else (False, True)):
                     kw = cfgs5[int(ctx.rng.integers(0, len(cfgs5)))]
-                    if flabel == 'spider' and kw.get('with_spiders') is False:
+                    if flabel.startswith('spider') and kw.get('with_spiders') is False:
                         kw = cfgs5[0]
                     fam = 'regular' if (li + k) % 2 == 0 else str(ctx.rng.choice(['sep-asc', 'sep-desc', 'sep-permuted', 'regular-reversed', 'regular-scaled-1']))
+                    if flabel == 'spider-crossings':
+                        fam = 'pts'
                     l, chk = run_hexpupil(ctx, name, kw, int(ctx.rng.integers(0, 2 ** 31)), fam, feat=[flabel, k, fine])
                     checks.append((len(lines), len(l), chk))
                     lines += l
@@ -2420,6 +2541,7 @@ def run(ctx):
     run_super_stats(ctx)
     run_super_lists(ctx)
     run_negative_diameter(ctx)
+    run_exact_boundary(ctx)
     out = ctx.model(lines)
     for base, cnt, chk in checks:
         chk(out[base:base + cnt])
@@ -2447,6 +2569,16 @@ def run(ctx):
                 kw = {'with_spiders': bool(ctx.rng.random() < 0.5)} if name != 'make_luvoir_b_aperture' else {}
                 run_pupil(ctx, name, kw, int(ctx.rng.integers(0, 2 ** 31)), None, fam)
     ctx.extra['pupil_configurations'] = len(cfgs)
+    frac = {}
+    for k, v in ctx.dist.items():
+        if k.startswith('skipped-by-maker:') or k.startswith('compared-by-maker:'):
+            kind, mk = k.split(':', 1)
+            frac.setdefault(mk, {'skipped': 0, 'compared': 0})[kind.split('-')[0]] += v
+    frac['hexpupil(model)'] = {'skipped': ctx.dist.get('boundary-skipped:hexpupil', 0), 'compared': ctx.dist.get('hexpupil-points-compared', 0)}
+    for mk, d in frac.items():
+        d['skipped_fraction'] = round(d['skipped'] / max(1, d['skipped'] + d['compared']), 5)
+    ctx.extra['boundary_skipped_by_maker'] = frac
+    ctx.extra['compared_on_boundary'] = {k.split(':', 1)[1]: v for k, v in ctx.dist.items() if k.startswith('on-boundary-by-maker:')}
     ctx.extra['axis_distribution'] = {k[5:]: v for k, v in sorted(ctx.dist.items()) if k.startswith('axes:')}
     cover = {}
     for k, v in ctx.dist.items():
